@@ -66,9 +66,9 @@ Proof.
     change (act (with_label st (t_label st + 1))) with (act st) in A1.
     change (pl (with_label st (t_label st + 1))) with (pl st) in P1.
     change (dp (with_label st (t_label st + 1))) with (dp st) in D1.
-    destruct (set_eqb _ _).
+    destruct (set_eqb _ _ && entry_unchanged _ _).
     + inversion H; subst; clear H. split.
-      * unfold SummN. repeat split; auto; cbn [with_stable t_iters t_label]; try lia.
+      * unfold SummN. repeat split; auto; try lia.
       * unfold lab_range. cbn [labels]. rewrite labels_app. cbn. constructor; [lia|].
         rewrite app_nil_r. eapply lab_range_weaken; eauto; lia.
     + destruct (0 <? c - 1).
